@@ -131,8 +131,9 @@ def blahut_arimoto(p_x, beta, distortion=hamming_distortion, max_iters=100, rest
         if i == 0:
             q_y_x = np.ones((n, n)) / n
         elif i == 1:
+            # every input is mapped to the first output (a valid channel)
             q_y_x = np.zeros((n, n))
-            q_y_x[0, :] = 1
+            q_y_x[:, 0] = 1
         else:
             q_y_x = sample_simplex(n, n)
 
@@ -195,7 +196,7 @@ def blahut_arimoto_ib(p_xy, beta, divergence=relative_entropy, max_iters=100, re
         :math:`d(x, t) = D[ p(Y|x) || q(Y|t) ]`
         """
         q_y_t = next_q_y_t(q_t_x)
-        distortions = np.asarray([divergence(a, b) for a in p_y_x for b in q_y_t]).reshape(q_y_t.shape)
+        distortions = np.asarray([divergence(a, b) for a in p_y_x for b in q_y_t]).reshape(len(p_y_x), len(q_y_t))
         return distortions
 
     rd, q_xt = blahut_arimoto(p_x=p_x,
